@@ -33,6 +33,7 @@ def bounds(tier, seed):
 
 
 def cases(tier, seed):
+    nbuild = seed
     ks = (3, 4) if tier == "quick" else (3, 4, 5)
     for fr in pick_frames(FRAMES, tier, seed):
         for k in ks:
@@ -56,7 +57,11 @@ def cases(tier, seed):
                                         continue
                                     if tier == "quick" and (nn + ne + len(hole) + len(method)) % 2 and req != "default":
                                         continue
-                                    yield dict(kind="project", nn=nn, ne=ne, hole=hole, proj=proj, method=method, anti=anti, req=req, named=named)
+                                    # how the DataArray was built: coordinate dict northing-first / easting-first (what verde's own
+                                    # grids look like) / through make_xarray_grid; rotates over the cases (seed C16-8)
+                                    nbuild += 1
+                                    yield dict(kind="project", nn=nn, ne=ne, hole=hole, proj=proj, method=method, anti=anti, req=req, named=named,
+                                               build=("ne", "en", "verde")[nbuild % 3])
     for bad in ("dataset", "1d", "3d", "method"):
         yield dict(kind="project_invalid", bad=bad)
 
@@ -213,7 +218,14 @@ def run(case, rec):
         vals[-1, -1] = np.nan
         if nn > 2 and ne > 2:
             vals[-1, -2] = np.nan; vals[-2, -1] = np.nan
-    da = xr.DataArray(vals, coords={"northing": north, "easting": east}, dims=("northing", "easting"))
+    build = case.get("build", "ne")
+    if build == "en":
+        da = xr.DataArray(vals, coords={"easting": east, "northing": north}, dims=("northing", "easting"))
+    elif build == "verde":
+        da = vd.make_xarray_grid((east, north), vals, data_names="scalars")["scalars"]
+        da.name = None
+    else:
+        da = xr.DataArray(vals, coords={"northing": north, "easting": east}, dims=("northing", "easting"))
     if case["named"]:
         da.name = "temp"
     pf = _projection(case["proj"])
